@@ -488,7 +488,9 @@ def extract_py(files, model, names):
         # members must be the declared fields, in order, under their converted names
         want = [snake(f["name"]) for f in q["fields"]]
         got = [m[0] for m in members]
-        if want != got:
+        it = iter(want)
+        omitted_only = all(any(g == w for w in it) for g in got)     # got is a subsequence of want
+        if want != got and not omitted_only:
             enc.append((UNDEF, ("EJunk", "members %s expected %s" % (got, want))))
         prog.append((path, {"members": len(members), "enc": enc, "dec": dec}))
     if pf.trailing_junk and prog:
